@@ -29,7 +29,7 @@ CLASSES = ("constant", "two_valued", "bits2", "bits4", "bits8", "normal", "wide"
 
 def REQUIRED(tier):
     return ["histories:composition", "histories:merge", "histories:merge_of_merges", "class:constant", "class:wide", "class:outlier", "class:tiny",
-            "mode:basic", "mode:full", "constant_channel_checks", "single_sample_chunks", "canary_audits", "cross_partition_checks", "class:const_f64", "class:normal_f64", "histories:large_merge", "regime:merged_count_over_2^21", "histories:observed_mid_stream", "merge:augmented_assignment", "regime:chunks_of_thousands_of_samples", "histories:reused_chunk_buffer", "histories:after_refused_first_push", "histories:reader_windows", "regime:single_chunk_over_2^20_elements_nchans_not_power_of_two"]
+            "mode:basic", "mode:full", "constant_channel_checks", "single_sample_chunks", "canary_audits", "cross_partition_checks", "class:const_f64", "class:normal_f64", "histories:large_merge", "regime:merged_count_over_2^21", "histories:observed_mid_stream", "merge:augmented_assignment", "regime:chunks_of_thousands_of_samples", "histories:reused_chunk_buffer", "histories:after_refused_first_push", "histories:reader_windows", "regime:single_chunk_over_2^20_elements_nchans_not_power_of_two", "regime:one_level_repeated_over_2^16_times_in_a_chunk", "regime:merged_count_over_2^24"]
 
 
 def cases(tier, seed):
@@ -40,6 +40,8 @@ def cases(tier, seed):
                 for nch in (1, 3):
                     k += 1
                     yield {"kind": "exhaustive", "cls": cls, "mode": mode, "n": n, "nchans": nch, "dseed": int(seed) * 1009 + k}
+    k += 1
+    yield {"kind": "large_merge", "n": (1 << 24) + 3, "split": 0.5, "shift": 2.0, "dseed": int(seed) * 1009 + k}     # a merged count that single precision cannot hold
     for i, n in enumerate((100000, 1 << 21, (1 << 21) + 2, 2200000, 3000000, 5000000) if tier == "quick" else (100000, 1500000, 1 << 21, (1 << 21) + 2, 2200000, 2500000, 3000000, 4000000, 5000000, 8000000)):
         for split, shift in ((0.5, 5.0), (0.1, -3.0)) if tier == "quick" else ((0.5, 5.0), (0.1, -3.0), (0.9, 40.0), (0.5, 0.0)):
             k += 1
@@ -56,6 +58,9 @@ def cases(tier, seed):
         for mode in ("basic", "full"):      # one chunk of more than 2^20 elements with a channel count that does not divide 2^20
             k += 1
             yield {"kind": "random", "cls": "bits8" if mode == "basic" else "normal", "mode": mode, "n": n, "nchans": nch, "dseed": int(seed) * 1009 + k, "threads": 0, "long": True}
+    for cls, mode in (("constant", "full"), ("two_valued", "full"), ("constant", "basic")):     # dead / saturated / one-bit channels: one level repeated >= 2^16 times in a chunk
+        k += 1
+        yield {"kind": "random", "cls": cls, "mode": mode, "n": 150000, "nchans": 2, "dseed": int(seed) * 1009 + k, "threads": 0, "long": True, "repeated_levels": True}
     rng = np.random.default_rng([seed, 1010])
     nr = 400 if tier == "quick" else 8000
     for _ in range(nr):
@@ -213,6 +218,8 @@ def _large_merge(case, ctx):
     ctx.evaluated(); ctx.count("histories:large_merge"); ctx.count("class:large"); ctx.count(f"mode:{mode}")
     if n > (1 << 21):
         ctx.count("regime:merged_count_over_2^21")
+    if n > (1 << 24):
+        ctx.count("regime:merged_count_over_2^24")
     hist = ["merge", k, n - k]
     try:
         a = ChannelStats(1, k); a.push_data(x[:k].ravel(), 0, mode=mode)
@@ -347,6 +354,8 @@ def run_case(case, ctx):
     else:
         if case.get("long"):
             ctx.count("regime:chunks_of_thousands_of_samples")
+        if case.get("repeated_levels"):
+            ctx.count("regime:one_level_repeated_over_2^16_times_in_a_chunk")
         for it in range(6):
             m = int(rng.integers(1, min(n, 40))) if not case.get("long") else (1 if it == 0 else int(rng.integers(1, 6)))
             if m == 1 and n * nch > (1 << 20) and (nch & (nch - 1)):
